@@ -110,6 +110,9 @@ type RunCtx struct {
 	Rng    *rand.Rand // scenario-level PRNG (never used in replayed decisions)
 	fifo   *Chooser
 	After  []func()
+	// InputHook lets a driver corrupt the inputs of one party before the parties are built
+	// (wrong-input Byzantine nodes): stage names the slice handed over.
+	InputHook func(stage string, data interface{})
 	start  time.Time
 }
 
@@ -331,6 +334,13 @@ func idKeys(r *rand.Rand, pattern string, n int, q *big.Int, base int64) []*big.
 				out[i] = new(big.Int).Add(q, big.NewInt(base+int64(i/2)+1))
 			}
 		}
+	case "congruent":
+		// inadmissible on purpose: the last id is congruent to the first modulo q. Key generation must
+		// either refuse it or, if it completes, still satisfy the sharing oracle
+		for i := range out {
+			out[i] = big.NewInt(base + int64(i) + 5)
+		}
+		out[n-1] = new(big.Int).Add(out[0], q)
 	case "aboveq":
 		for i := range out {
 			out[i] = new(big.Int).Add(new(big.Int).Lsh(q, 1), big.NewInt(base+int64(i)+3))
